@@ -186,8 +186,8 @@ theorem released_by_close {files0 : Path → Option Bytes} {s s' : State} (hr : 
   have hcur : ((State.mk (dropLock s.w fd o.path) (upd s.cl c ⟨(s.cl c).held,
       some (nextFrame s.w (dropLock s.w fd o.path) fr (Sys.funlock fd) tag Fault.none n Res.ok)⟩)).cl c).cur =
       some (nextFrame s.w (dropLock s.w fd o.path) fr (Sys.funlock fd) tag Fault.none n Res.ok) := by simp
-  have := ((hi'.clients c).frame _ hcur).fd fd (by simp [nextFrame, hpc, advancePc, Pc.fd?])
-  simpa [nextFrame, hpc, advancePc, Pc.locked] using this.2.2
+  have := ((hi'.clients c).frame _ hcur).fd fd (by simp [nextFrame, hpc, advancePc, finPc_eq, Pc.fd?])
+  simpa [nextFrame, hpc, advancePc, finPc_eq, Pc.locked] using this.2.2
 
 /-- After closeFile's Unlock has succeeded (control point `close fd ret false`) nothing is held. -/
 theorem released_after_unlock {files0 : Path → Option Bytes} {s : State} (hr : Reachable files0 s) {c : Cid}
@@ -195,6 +195,40 @@ theorem released_after_unlock {files0 : Path → Option Bytes} {s : State} (hr :
     ∀ p k, ¬ holdsFd s.w fd p k := by
   have := (((reachable_Inv1 hr).clients c).frame fr hc).fd fd (by simp [hpc, Pc.fd?])
   simpa [hpc, Pc.locked] using this.2.2
+
+/-! #### … also when the open file description is shared (dup(2), inherited by a child process)
+
+flock(2) locks belong to the open file description, not to the descriptor: close(2) of one of several
+descriptors of a description releases nothing.  In the model this is the environment choice `Fault.shared`
+at a close step. -/
+
+/-- closeFile unlocks before it closes (regenerated from the source). -/
+theorem facts_close_unlocks_first :
+    Gen.Lockedfile.unlockBeforeClose = true ∧ Gen.Lockedfile.closeErrCombine = true := by decide
+
+/-- Why: on a shared description close(2) alone keeps every lock — whatever `fd` holds before, it holds after. -/
+theorem shared_close_keeps_lock {w w' : World} {c : Cid} {fd : Fd} {r : Res} {p : Path} {k : LockKind}
+    (h : osStep w c (.close fd) .shared = some (w', r)) (hk : holdsFd w fd p k) : holdsFd w' fd p k := by
+  rcases osStep_close_spec h with rfl | ⟨o, ho, _, rfl⟩
+  · exact hk
+  · simp [osStep, ho, faultErr] at h
+    rw [← h.1]; exact hk
+
+/-- **Released by Close even when the description is shared**: once closeFile's Unlock has succeeded, the
+Close step — failing, succeeding, or succeeding on a shared description that lives on — leaves the
+descriptor without any lock. -/
+theorem close_keeps_released {files0 : Path → Option Bytes} {s s' : State} (hr : Reachable files0 s) {c : Cid}
+    {fr : Frame} {fd : Fd} {ret : Ret} {f : Fault} {n : Nat} (hc : (s.cl c).cur = some fr)
+    (hpc : fr.pc = .close fd ret false) (hs : step s ⟨c, .sys f n⟩ = some s') : ∀ p k, ¬ holdsFd s'.w fd p k := by
+  have hrel := released_after_unlock hr hc hpc
+  obtain ⟨fr0, sc, tag, w', r, hc0, hsys, hos, rfl⟩ := step_sys hs
+  rw [hc] at hc0; cases hc0
+  simp only [sysOf, hpc, Option.some.injEq, Prod.mk.injEq] at hsys
+  obtain ⟨rfl, _⟩ := hsys
+  intro p k hk
+  rcases osStep_close_spec hos with rfl | ⟨o, _, _, rfl⟩
+  · exact hrel p k hk
+  · exact hrel p k ((holdsFd_closeFd ..).1 hk).1
 
 /-- client 1 got a File from OpenFile(O_RDONLY) in `demoR`; client 2's Write ran to completion. -/
 example : (⟨2, 0, Gen.Lockedfile.O_RDONLY, none⟩ : Handle) ∈ (((run demoR).get demoR_some).cl 1).held := by
@@ -211,6 +245,25 @@ example : ∃ s s' fr, Reachable noFiles s ∧ (s.cl 1).cur = some fr ∧ fr.pc 
     (((run demoC).get demoC_some).cl 1).cur.get (by decide +kernel),
     reachable_run demoC .init (Option.some_get demoC_some).symm, (Option.some_get _).symm, by rfl,
     (Option.some_get _).symm⟩
+
+/-- Close on a shared description: Unlock, then a close(2) that leaves the description alive — Close returns
+nil, nothing is held, and a writer gets its exclusive lock at once. -/
+def demoShared : List Label :=
+  demoC ++ [sy 1, ⟨1, .sys .shared 0⟩, ⟨1, .ret⟩, sy 0, sy 0, sy 0, sy 0, ⟨0, .ret⟩,
+    ⟨3, .call (.write 0 [2])⟩, sy 3, sy 3]
+
+example : (run demoShared).isSome = true ∧
+    ((run demoShared).map fun s => ((s.w.fds 2).isSome, (s.w.locks 0).ex, (s.w.locks 0).sh)) = some (true, some 3, []) := by
+  decide +kernel
+
+/-- without the Unlock (here: it fails) a close(2) on a shared description leaks the lock: Close has returned,
+the reader's shared lock is still in the table, and the writer blocks. -/
+def demoLeak : List Label :=
+  demoC ++ [⟨1, .sys .fail 0⟩, ⟨1, .sys .shared 0⟩, ⟨1, .ret⟩, sy 0, sy 0, sy 0, sy 0, ⟨0, .ret⟩,
+    ⟨3, .call (.write 0 [2])⟩, sy 3]
+
+example : ((run demoLeak).map fun s => ((s.cl 1).cur.isNone, (s.w.locks 0).sh, (step s (sy 3)).isNone)) =
+    some (true, [2], true) := by decide +kernel
 
 /-! ### Mutex -/
 
